@@ -446,6 +446,26 @@ theorem lifted_center : CorrRemoverSrc.fitCenter = (fun s m => s - m) ∧
     | rfl
     | (funext s m; simp only [CorrRemoverSrc.transformCenter]; ring)
 
+/-- `np.linalg.lstsq(X_s_center, X_use, rcond=None)`: the solve is NOT truncated by an explicit cut-off.  This is the
+    assumption under which the model takes `beta_` to satisfy the normal equations (`CorrL.lstsqAssumed`); with any explicit
+    numeric `rcond` in the source the lifter emits `some q`, this theorem fails, and with it `src_model_eq` and every
+    `src_*` clause (an `rcond` that is not a literal is refused by the lifter). -/
+theorem lifted_lstsq_untruncated : CorrRemoverSrc.lstsqRcond = none := by decide
+
+/-- what the model assumes of `lstsq` AT THE LIFTED `rcond`: exactly the normal equations of the operands the source passes -/
+theorem src_lstsq_assumption (ids : List Nat) (m : Nat) (X β : Mat) :
+    isLstsqSrc ids m X β = isLstsq (lstsqA ids X) (useSrc ids m X) β ids.length (keptIdx ids m).length := by
+  unfold isLstsqSrc
+  rw [lifted_lstsq_untruncated, lstsqAssumed_none]
+
+/-- necessity of `lifted_lstsq_untruncated`: under an explicit cut-off the model's assumption is vacuous, and a `β` that
+    violates the normal equations (here β = 0 on a perfectly correlated pair of columns) passes -/
+theorem truncated_lstsq_assumes_nothing (q : Rat) :
+    lstsqAssumed (some q) [[-1], [1]] [[-1], [1]] [[0]] 1 1 = true ∧
+    lstsqAssumed none [[-1], [1]] [[-1], [1]] [[0]] 1 1 = false ∧
+    lstsqAssumed none [[-1], [1]] [[-1], [1]] [[1]] 1 1 = true := by
+  refine ⟨rfl, ?_, ?_⟩ <;> decide +kernel
+
 /-- `transform` centres with the STORED training mean (and multiplies with the stored `beta_`): nothing is re-estimated -/
 theorem lifted_transform_uses_training_statistics : CorrRemoverSrc.transformMean = .stored := by decide
 
@@ -494,7 +514,8 @@ theorem src_model_eq (p : Params) (X : Mat) (ids : List Nat) (m : Nat) (β : Mat
   ⟨transformSrc_eq p X lifted_transform_uses_training_statistics lifted_center.2 lifted_out_entry
       (lifted_split p.ids p.m).1 (lifted_split p.ids p.m).2,
    fitMeanSrc_eq ids X lifted_mean_per_column (lifted_split ids m).1,
-   isLstsqSrc_eq ids m X β lifted_mean_per_column lifted_center.1 (lifted_split ids m).1 (lifted_split ids m).2⟩
+   isLstsqSrc_eq ids m X β lifted_mean_per_column lifted_center.1 (lifted_split ids m).1 (lifted_split ids m).2
+     lifted_lstsq_untruncated⟩
 
 /-- MAIN CLAUSE for the lifted text: if `beta_` solves the least-squares problem `lstsq` is CALLED with in the source
     (operands as lifted), the alpha = 1 output of the lifted `transform` with the mean the lifted `fit` stores has zero
